@@ -27,7 +27,7 @@ class C15(Machine):
     LEVEL = "fault_enumeration"
     FAMILY_WEIGHTS = {"sparse": 3, "dense": 1, "canal": 3, "modular": 4, "maa": 2, "cascade": 3, "degenerate": 1, "inputs_mix": 2}
     NMAX = {"quick": 6, "thorough": 7}
-    RULE = "one evaluation = one sampled (network, prefix, operation) whose fault space is enumerated: every size limit 1..final size+1, every level/stack limit 0..depth+1, a solver failure at every clingo fault point (all while <=64, seeded sample of 64 beyond), configured limits at and below the actual counts; distinct = distinct event-log digest; non-trivial = at least 3 interrupted attempts of which at least one really stopped early or raised"
+    RULE = "one evaluation = one sampled (network, prefix, operation) whose fault space is enumerated: every size limit 1..final size+1, every level/stack limit 0..depth+1, a solver failure at every clingo fault point (all while <=64, seeded sample of 64 beyond; 'light' evaluations sample 6), configured limits at and below the actual counts; distinct = distinct event-log digest; non-trivial = at least 3 interrupted attempts of which at least one really stopped early or raised"
 
     def gen_scenario(self, run_seed, tier):
         sc = super().gen_scenario(run_seed, tier)
@@ -41,8 +41,11 @@ class C15(Machine):
         return sc
 
     def gen_params(self, sc, rng):
-        kind = rng.choice(["bfs", "dfs", "minimal", "attr_seeds", "to_target", "block", "block", "scc", "scc", "scc", "seeds", "seeds", "candidates", "sets"])
+        kind = rng.choice(["bfs", "dfs", "minimal", "attr_seeds", "attr_seeds", "to_target", "block", "block", "scc", "scc", "scc", "seeds", "seeds", "candidates", "sets"])
         sc["params"] = {"kind": kind, "prefix": 0 if kind in ("block", "scc") else rng.choice([0, 0, 1, 2, 3]), "p_attr": 0.2}
+        # light evaluations: every size / level / stack limit, but only a handful of solver fault
+        # points — several times cheaper, so more (network, prefix, operation) triples per batch
+        sc["params"]["light"] = kind in RESUMABLE and rng.random() < 0.5
         if rng.random() < 0.3:
             sc["walk_seed"] = rng.randrange(1 << 30)
         # how the solver fails in this history: RuntimeError (clingo error) or MemoryError (bad_alloc)
@@ -188,9 +191,10 @@ class C15(Machine):
             for L in range(0, depth + 2):
                 attempts.append(("stack", L))
         ks = list(range(1, K + 1))
-        if len(ks) > 64:
+        cap = 6 if sc["params"].get("light") else 64
+        if len(ks) > cap:
             r = sub_rng(sc["ops_seed"], "fault-sample")
-            ks = sorted(r.sample(ks, 64))
+            ks = sorted(r.sample(ks, cap))
         for k in ks:
             attempts.append(("solver", k))
         if O["op"] in RESUMABLE + ("block", "scc"):
